@@ -174,7 +174,9 @@ def generate_cases(ctx, stage):
         os.remove(out)
     ctx["states"] += gdist
     ctx["transitions"] += gstates
-    # design-only runs (no cases): still count
+    # TLC prints the cases in the order its workers reach them: sort, so that sampling (seeded) and case ids are
+    # the same in every run with the same seed
+    cases.sort(key=lambda c: json.dumps(c, sort_keys=True))
     return cases
 
 
